@@ -43,6 +43,12 @@ theorem reach_nonempty (ep : EP) : reachSites ep ≠ [] := by
 
 /-! ### dispatch -/
 
+/-- **C13 (inventory, media types)**: no parse site of the library is reached or skipped depending on the media type
+    the manifest gives an object folder (the model's walk has no media type: every folder on a listed chain of
+    `Object <n>/` folders is a sub-document, whatever kind of object it holds) -/
+theorem dispatch_media_independent : ∀ s ∈ Generated.ParseSites.sites, s.mediaCond = 0 := by
+  decide
+
 /-- **C13 (inventory)**: every parser construction reachable from a reading entry point of the library is
     imported from `defusedxml` (checked over the inventory regenerated from the source on every run). -/
 theorem reach_all_defused (ep : EP) : ∀ s ∈ reachSites ep, s.origin = 0 := by
